@@ -102,6 +102,7 @@ def witnesses():
         "C06-adjacent-tags-glued": "{% a %} {% b %}" not in P.fmt("x {% a %} {% b %} y\n", width=88, semantic=False),
         "C06-semantic-splits-constructs": any("[see this thing." in l and "](" not in l for l in P.fmt(
             "Intro words go here. A link [see this thing. Then that](http://x.y) follows here.\n", width=88, semantic=True).split("\n")),
+        "C06-title-with-paren-not-atomic": not any('![img](i.png "(c) ACME (tm)")' in l for l in P.fmt('see ![img](i.png "(c) ACME (tm)") here\n', width=12, semantic=False).split("\n")),
         "C06-angle-bracket-pair-swallows-constructs": not any("`> `" in l for l in P.fmt("aaa x<y dddd eeee `> ` zzz\n", width=8, semantic=False).split("\n")),
         "C06-adjacent-tags-split-narrow": "{% a %}{% b %}" not in P.fmt("{% a %}{% b %} text\n", width=5, semantic=False).replace("\n", "\n"),
     }
